@@ -115,7 +115,7 @@ def run(tier):
     run_shape(ctx, "tok gap tok gap tok (sampled vocabulary)", [sub, g2, sub, g2, sub])
     tv = VOCAB if tier == "thorough" else rnd.sample(VOCAB, 25) + ["x", ";"]
     run_shape(ctx, "token tail (text ends in a gap or directive, with and without newline)", [tv, TAILS])
-    run_shape(ctx, "token tail token", [["x", ";", "42"], TAILS, ["y", "}", "tt"]])
+    run_shape(ctx, "token tail token", [["x", ";", "42"], TAILS, ["y", "}", "tt", "2", "1", "4u"]])
     from . import lextrace
     lextrace.validate_corpus(ctx, tier)
     ctx.cov["exhaustive"] = True
